@@ -435,12 +435,22 @@ def make_driver(plan, world):
     k = plan["knobs"]
     late = getattr(world, "_late_map", None)
     if late is not None:
-        # the application hands over its (still empty) mapper and fills it afterwards
+        # the application hands over its (still empty) mapper and fills it afterwards - at once, or
+        # in the middle of the run (knob inst_map_fill_at_us, relative to now)
         m, entries = late
-        for a, i, t in entries:
-            m.add_type(short_address=a, instance_number=i, instance_type=t)
+
+        def fill():
+            for a, i, t in entries:
+                m.add_type(short_address=a, instance_number=i, instance_type=t)
+            d._verif_map_filled_us = world.now_us()
+            world.probe("instance-map-filled")
         d._verif_inst_map = m
+        d._verif_map_filled_us = None
         world._late_map = None
+        if k.get("inst_map_fill_at_us") is not None:
+            world.loop.at(world.loop.time() + k["inst_map_fill_at_us"] / 1e6, fill)
+        else:
+            fill()
     return d
 
 
